@@ -98,3 +98,13 @@ Theorem C10_source_effects :
   (forall ctx q rep, peq (src_handle_validation_response ctx q rep) (handle_validation_response ctx q rep)).
 Proof. repeat split; [exact tie_round_trip|exact tie_handle_unrecognized_method|exact tie_handle_cache_miss|exact tie_handle_cache_hit|exact tie_background_revalidate|exact tie_handle_validation_response]. Qed.
 Print Assumptions C10_source_effects.
+
+(* ... and StoreResponse (hop-by-hop fields removed first, the variant key, the entry written before the index, the index
+   entry appended or replaced), serveFromCache and handleStaleWhileRevalidate (qualified no-cache fields removed, Age, status,
+   the background revalidation started with the stored validators) *)
+Theorem C10_source_effects2 :
+  (forall q r k refs a b i, peq (src_store_response q r k refs a b i) (store_response q r k refs a b i)) /\
+  (forall e f now ql, peq (src_serve_from_cache e f now ql) (Ret (serve_from_cache e f now ql))) /\
+  (forall q e k f cc now ql, peq (src_handle_stale_while_revalidate q e k f cc now ql) (handle_stale_while_revalidate q e k f cc now ql)).
+Proof. repeat split; [exact tie_store_response|exact tie_serve_from_cache|exact tie_handle_stale_while_revalidate]. Qed.
+Print Assumptions C10_source_effects2.
